@@ -13,7 +13,7 @@ import time
 
 VERIF = os.path.dirname(os.path.dirname(os.path.abspath(__file__)))
 SEEDED = os.path.join(VERIF, "seeded")
-WT = "/tmp/wt/seedtest"
+WT = "/tmp/wt/seedtest-%d" % os.getpid()
 
 
 def sh(cmd, cwd=None, env=None, timeout=3600):
